@@ -200,5 +200,5 @@ Theorem replace_with_own_key h S p r d cs kb case_sensitive :
 Proof.
   intros HA Hx Hk Hmov. pose proof (own_key_name_ok h S r d cs kb HA Hx Hk) as Hn.
   apply (Step_replace_key S (Some p) (Some kb) (Some r) case_sensitive); [|done].
-  right. exists p, r. done.
+  right. left. exists p, r. done.
 Qed.
